@@ -72,6 +72,11 @@ func (r *Report) Violate(prop, assert string, step int, format string, a ...any)
 }
 
 func (r *Report) KnownFinding(prop, cause string, format string, a ...any) {
+	if prop != r.Prop {
+		// helper monitors of other properties only count
+		r.Counts["foreign-known."+prop+"."+cause]++
+		return
+	}
 	k := prop + "/" + cause
 	h := r.Known[k]
 	if h == nil {
